@@ -134,6 +134,12 @@ MC = {
                      liqMode="share", vlN=1, vlD=2),
         req=reqset(["market", "limit", "stop"], [1, 3], [2, 3], [2]), bars=barset([2, 3], [0, 5, 6]),
         loans="{}", bounds=dict(MaxOrders=2, MaxLoans=0, MaxBars=3, MaxCalls=3), times=[1]),
+    # a user-defined strategy charging 10 % of the traded base amount in the base symbol, competing orders under share liquidity
+    "basefee": dict(
+        cfg=base_cfg(scale={"BTC": 10, "USD": 1}, init={"BTC": 25, "USD": 12}, feeMode="base", feeN=1, feeD=10,
+                     liqMode="share", vlN=1, vlD=2),
+        req=reqset(["market", "limit"], [5, 15], [2], [2]), bars=barset([2], [0, 30, 50]),
+        loans="{}", bounds=dict(MaxOrders=3, MaxLoans=0, MaxBars=3, MaxCalls=3), times=[1]),
     # base precision 1 (scale 10): rounding of quote amounts and fees
     "rounding": dict(
         cfg=base_cfg(scale={"BTC": 10, "USD": 1}, init={"BTC": 15, "USD": 9}, feeMode="pct", feeN=25, feeD=1000,
@@ -186,20 +192,21 @@ MC = {
         loans="{}", bounds=dict(MaxOrders=2, MaxLoans=0, MaxBars=3, MaxCalls=2), times=[1]),
 }
 MC_FOR = {
-    "C01": (["orders", "fees"], ["rounding", "margin", "twopairs"]),
+    "C01": (["orders", "fees"], ["rounding", "margin", "twopairs", "basefee"]),
     "C02": (["margin", "twopairs"], ["orders", "fees", "margin_zero"]),
     "C04": (["orders", "stoplimit"], ["fees", "rounding"]),
     "C05": (["orders"], ["fees", "twopairs", "stoplimit"]),
     "C06": (["orders", "fees"], ["margin", "rounding", "twopairs"]),
     "C07": (["orders", "margin", "margin_fee"], ["fees", "margin_zero"]),
-    "C08": (["fees"], ["rounding", "orders"]),
-    "C09": (["fees", "rounding"], ["orders"]),
+    "C08": (["fees", "basefee"], ["rounding", "orders"]),
+    "C09": (["fees", "rounding"], ["orders", "basefee"]),
     "C10": (["margin", "margin_zero", "margin_setcond"], ["orders"]),
     "C11": (["margin", "margin_partial"], ["margin_zero", "margin_fee"]),
 }
 REACH_FOR = {
     "orders": ["Reach_Completed", "Reach_Rejected"],
     "fees": ["Reach_PartialFill", "Reach_FeeCharged", "Reach_FillOrKill"],
+    "basefee": ["Reach_PartialFill", "Reach_BaseFeeCharged", "Reach_FillOrKill"],
     "margin": ["Reach_LoanRepaid", "Reach_AutoRepaid", "Reach_MarginRefused"],
     "margin_setcond": ["Reach_CondChanged", "Reach_MarginRefused"],
     "margin_fee": ["Reach_Rollback"],
@@ -367,6 +374,10 @@ def random_cfg(rng: random.Random, profile: str) -> dict:
         liq, lend = "share", "none"
     if fee == "pct" and rng.random() < 0.15:
         cfg["bigMinFee"] = True
+    elif fee == "pct" and rng.random() < 0.18:
+        # a user-defined fee strategy charging a share of the traded base amount in the BASE symbol
+        fee = cfg["feeMode"] = "base"
+        cfg["feeN"], cfg["feeD"] = rng.choice([(1, 1000), (25, 10000), (1, 100), (1, 10), (1, 3)])
     if fee == "pct":
         cfg["feeN"], cfg["feeD"] = rng.choice([(0, 1), (1, 1000), (25, 10000), (1, 100), (1, 10), (999, 1000)])
         cfg["minFeeN"], cfg["minFeeD"] = rng.choice([(0, 1), (0, 1), (1, 200), (1, 2), (3, 1)])
